@@ -79,6 +79,10 @@ class Former:
             if op in ('==', '!='):
                 l, r = _strip(e['lhs']), _strip(e['rhs'])
                 lc, rc = const_value(l) if isinstance(l, dict) else None, const_value(r) if isinstance(r, dict) else None
+                if isinstance(l, dict) and l.get('k') == 'nullptr':
+                    lc = 0
+                if isinstance(r, dict) and r.get('k') == 'nullptr':
+                    rc = 0
                 f = None
                 if rc == 0 and lc is None:
                     f = neg(self.form(l, depth + 1))
@@ -133,13 +137,58 @@ def ev(f, env):
     return ev(f[1], env) or ev(f[2], env)
 
 
+def _operands(a):
+    """the two operands of an atom `(== X Y)`, or None"""
+    if not (a.startswith('(== ') and a.endswith(')')):
+        return None
+    body = a[4:-1]
+    depth = 0
+    for i, ch in enumerate(body):
+        if ch == '(':
+            depth += 1
+        elif ch == ')':
+            depth -= 1
+        elif ch == ' ' and depth == 0:
+            return body[:i], body[i + 1:]
+    return None
+
+
+def _is_constant(s):
+    if s.lstrip('-').isdigit():
+        return True
+    return '(' not in s and '::' in s and not s.startswith(('f:', 'l:', '$'))      # an enumerator
+
+
+def exclusive_groups(names):
+    """atoms `x == c1`, `x == c2` with distinct constants cannot hold together: groups of mutually exclusive atoms"""
+    groups = {}
+    for a in names:
+        ops = _operands(a)
+        if not ops:
+            continue
+        x, y = ops
+        if _is_constant(x) and not _is_constant(y):
+            groups.setdefault(y, {})[x] = a
+        elif _is_constant(y) and not _is_constant(x):
+            groups.setdefault(x, {})[y] = a
+    return [list(g.values()) for g in groups.values() if len(g) > 1]
+
+
+def _consistent(env, groups):
+    return all(sum(1 for a in g if env[a]) <= 1 for g in groups)
+
+
 def equivalent(f1, f2, assume=None):
-    """propositional equivalence; `assume`: a formula taken as given (e.g. exclusivity of enum tests)"""
+    """propositional equivalence (modulo: equality of one expression with two different constants is exclusive);
+       `assume`: a formula taken as given"""
     names = sorted(atoms(f1) | atoms(f2) | (atoms(assume) if assume else set()))
     if len(names) > 14:
         return None
+    groups = exclusive_groups(names)
     for vals in product((False, True), repeat=len(names)):
         env = dict(zip(names, vals))
+        if not _consistent(env, groups):
+            continue
         if assume is not None and not ev(assume, env):
             continue
         if ev(f1, env) != ev(f2, env):
@@ -151,11 +200,26 @@ def implies(f1, f2):
     names = sorted(atoms(f1) | atoms(f2))
     if len(names) > 14:
         return None
+    groups = exclusive_groups(names)
     for vals in product((False, True), repeat=len(names)):
         env = dict(zip(names, vals))
+        if not _consistent(env, groups):
+            continue
         if ev(f1, env) and not ev(f2, env):
             return False
     return True
+
+
+def satisfiable(f):
+    names = sorted(atoms(f))
+    if len(names) > 14:
+        return True
+    groups = exclusive_groups(names)
+    for vals in product((False, True), repeat=len(names)):
+        env = dict(zip(names, vals))
+        if _consistent(env, groups) and ev(f, env):
+            return True
+    return False
 
 
 def literals(f):
@@ -218,3 +282,31 @@ def path_condition(body, target, former):
         f = former.form(c)
         out = all_of(out, f if pol else neg(f))
     return out
+
+
+def eval_selector(f, subject, value, enum=None):
+    """truth of formula f when the expression rendered `subject` has the integer `value`: atoms `(== subject c)` are decided
+       (c a number or an enumerator of `enum`: name -> value); any other atom makes the result None"""
+    def dec(a):
+        ops = _operands(a)
+        if not ops:
+            return None
+        x, y = ops
+        if y == subject:
+            x, y = y, x
+        if x != subject:
+            return None
+        if y.lstrip('-').isdigit():
+            return int(y) == value
+        if enum is not None:
+            nm = y.split('::')[-1]
+            if nm in enum:
+                return enum[nm] == value
+        return None
+    env = {}
+    for a in atoms(f):
+        v = dec(a)
+        if v is None:
+            return None
+        env[a] = v
+    return ev(f, env)
